@@ -425,3 +425,7 @@ def run(ctx):
     esc3(ctx, lib)
     from . import classprinter
     classprinter.raw1(ctx, lib, class_escape_closures(lib))
+    from . import counting
+    counting.rules(ctx)
+    counting.cnt1(ctx, lib)
+    counting.cnt2(ctx, lib)
